@@ -128,6 +128,55 @@ fn handle(parts: &[&str]) -> String {
             walk(src.root(), &mut out);
             format!("ok {}", out.join(" "))
         }
+        "trees" => {
+            // every inner node of the parse tree of a source file as a compact s-expression:
+            // (Kind child child ...) ; leaves as Kind:hextext.  Only nodes whose subtree has at most `max` nodes are printed.
+            let path = unhex(parts[1]);
+            let max = num(parts[2]);
+            let text = match std::fs::read_to_string(&path) {
+                Ok(t) => t,
+                Err(_) => return "err".into(),
+            };
+            let src = Source::detached(text);
+            if src.root().erroneous() {
+                return "ok".into();
+            }
+            fn size(n: &SyntaxNode) -> usize {
+                1 + n.children().map(size).sum::<usize>()
+            }
+            fn sexp(n: &SyntaxNode, out: &mut String) {
+                if n.children().len() == 0 {
+                    out.push_str(&format!("{:?}:{}", n.kind(), hex(n.text())));
+                } else {
+                    out.push_str(&format!("({:?}", n.kind()));
+                    for c in n.children() {
+                        out.push(' ');
+                        sexp(c, out);
+                    }
+                    out.push(')');
+                }
+            }
+            fn walk(n: &SyntaxNode, max: usize, out: &mut Vec<String>) {
+                if n.children().len() > 0 && size(n) <= max {
+                    let mut s = String::new();
+                    sexp(n, &mut s);
+                    out.push(hex(&s));
+                }
+                for c in n.children() {
+                    walk(c, max, out);
+                }
+            }
+            let mut out = vec![];
+            walk(src.root(), max, &mut out);
+            format!("ok {}", out.join(" "))
+        }
+        "binops" => {
+            // every BinOp with precedence and text (NotIn has no single kind)
+            use ast::BinOp::*;
+            let all = [Add, Sub, Mul, Div, And, Or, Eq, Neq, Lt, Leq, Gt, Geq, Assign, In, NotIn, AddAssign, SubAssign, MulAssign, DivAssign];
+            let v: Vec<String> = all.iter().map(|op| format!("{:?}/{}/{}", op, op.precedence(), hex(op.as_str()))).collect();
+            format!("ok {}", v.join(" "))
+        }
         "newline_table" => {
             let mut v = vec![];
             for c in 0..=0x10FFFFu32 {
@@ -190,7 +239,7 @@ fn handle(parts: &[&str]) -> String {
             for i in 0..n {
                 let k = kind_from(i as u8);
                 if k.is_error() {
-                    out.push(format!("{:?}:{}:0000001000000:-,-,-,-,-,-,-", k, i));
+                    out.push(format!("{:?}:{}:0000001000000:-,-,-,-,-,-,-:-:-", k, i));
                     continue;
                 }
                 let leaf = SyntaxNode::leaf(k, "x");
@@ -229,7 +278,15 @@ fn handle(parts: &[&str]) -> String {
                     vname(leaf.cast::<ast::DictItem>(), inner.cast::<ast::DictItem>()),
                     vname(leaf.cast::<ast::DestructuringItem>(), inner.cast::<ast::DestructuringItem>()),
                 ];
-                out.push(format!("{:?}:{}:{}:{}", k, i, f, casts.join(",")));
+                let bin = match ast::BinOp::from_kind(k) {
+                    Some(op) => format!("{:?}/{}/{}", op, op.precedence(), hex(op.as_str())),
+                    None => "-".to_string(),
+                };
+                let un = match ast::UnOp::from_kind(k) {
+                    Some(op) => format!("{:?}/{}/{}", op, op.precedence(), hex(op.as_str())),
+                    None => "-".to_string(),
+                };
+                out.push(format!("{:?}:{}:{}:{}:{}:{}", k, i, f, casts.join(","), bin, un));
             }
             format!("ok {}", out.join(" "))
         }
